@@ -5,13 +5,13 @@ CONSTANTS
   IdPool <- IdPoolSmall
   FreshPool = {1}
   AutoNames = {"auto1"}
-  DefVals <- DefValsDef
+  DefVals <- DefValsSmall
   StepPool <- StepPoolDef
   ExtrasPool = {1}
   MaxAssets = 2
   MaxAssocs = 0
-  MaxAtk = 2
-  MaxH = 4
+  MaxAtk = 1
+  MaxH = 3
   MaxMembers = 0
 VIEW StateView
 INVARIANT UniqueIds
